@@ -1319,10 +1319,10 @@ func TestPropQueueHistories(t *testing.T) {
 	rec.Assume("Not modelled: loss of fsynced data, reordering of directory operations (create/unlink) by the file system, crashes during the repair performed by Open itself.")
 	rec.Assume("Caller protocol: Queue.Advance is only called when Current returned an entry; PurgeOlderThan is called with a time in the past; every (re)open uses a fresh Queue value and SharedCount as the replications service does.")
 	rec.Assume("Scanner and PeekN skip zero-length entries by design; they are compared with the non-empty entries of the model, Current/Advance with all entries.")
-	rec.Check(t, 1500, 15000, runHistory)
+	rec.Check(t, 1200, 6000, runHistory)
 }
 
 // TestPropTornAdvanceLargeOffsets: same machinery, advance-heavy profile (see runProfile).
 func TestPropTornAdvanceLargeOffsets(t *testing.T) {
-	rec.Check(t, 1000, 10000, func(t *rapid.T) { runProfile(t, true) })
+	rec.Check(t, 800, 4000, func(t *rapid.T) { runProfile(t, true) })
 }
